@@ -224,7 +224,7 @@ def rf_use_code(rf):
     return 1 if rf.use == 'refocusing' else 2
 
 
-def decode(seq, bid):
+def decode(seq, bid, F=F):
     import pypulseq as pp
     from pypulseq.calc_rf_center import calc_rf_center
     b = seq.get_block(bid)
@@ -234,6 +234,18 @@ def decode(seq, bid):
         r = b.rf
         d['rf'] = {'kind': 'rf', 'delay': F(r.delay), 'shape_dur': F(r.shape_dur), 'ringdown_time': F(r.ringdown_time),
                    'dead_time': F(r.dead_time), 't_last': F(r.t[-1]), 'center': F(calc_rf_center(r)[0]), 'use': rf_use_code(r)}
+        # how the time axis is stored in the library (input of the model's decode_rf_*)
+        try:
+            from pypulseq.decompress_shape import decompress_shape
+            tid = int(seq.rf_library.data[int(seq.block_events[bid][1])][3])
+            if tid == 0:
+                d['rf']['time_shape'] = ('regular', len(r.signal))
+            else:
+                sd = seq.shape_library.data[tid]
+                tl = decompress_shape(SimpleNamespace(num_samples=sd[0], data=np.asarray(sd[1:], dtype=float)))[-1]
+                d['rf']['time_shape'] = ('times', F(tl))
+        except Exception:  # noqa: BLE001
+            d['rf']['time_shape'] = None
     gr = seq.grad_raster_time
     for ch in ('gx', 'gy', 'gz'):
         g = getattr(b, ch)
@@ -260,7 +272,7 @@ def decode(seq, bid):
     return d
 
 
-def sys_fr(seq):
+def sys_fr(seq, F=F):
     o = seq.system
     return {'block': F(o.block_duration_raster), 'rf': F(o.rf_raster_time), 'grad': F(o.grad_raster_time),
             'adc': F(o.adc_raster_time), 'adc_dead': F(o.adc_dead_time), 'rf_dead': F(o.rf_dead_time),
